@@ -163,6 +163,25 @@ class PreErr(Exception):
         self.code = code
 
 
+class FalsyCallErr(CallErr):
+    """an exception object that is falsy (a container-like exception): still a failure"""
+    def __len__(self):
+        return 0
+
+
+class FalsyPreErr(PreErr):
+    def __bool__(self):
+        return False
+
+
+def call_err(code):
+    return (FalsyCallErr if code % 4 == 3 else CallErr)(code)
+
+
+def pre_err(code):
+    return (FalsyPreErr if code % 4 == 1 else PreErr)(code)
+
+
 PRE_OFFSET = 100
 
 
@@ -217,7 +236,7 @@ def run_fifo(cfg, strategy, max_steps=20000):
         try:
             S.yield_point('user_fn')
             if x in call_fail:
-                raise CallErr(call_fail[x])
+                raise call_err(call_fail[x])
             return call_value(xx)
         finally:
             stats['running'] -= 1
@@ -227,7 +246,7 @@ def run_fifo(cfg, strategy, max_steps=20000):
     def preprocessor(x):
         S.ev('preproc', '', x)
         if x in pre_fail:
-            raise PreErr(pre_fail[x])
+            raise pre_err(pre_fail[x])
         return x + PRE_OFFSET
 
     def consume(it):
